@@ -194,6 +194,10 @@ func (s *Settings) merge(other *Settings) {
 			}
 		} else {
 			otherFieldValue := getUnexportedField(otherField)
+			if field.Type.Kind() == reflect.Slice && isNilish(otherFieldValue) {
+				// an unset list must not erase a list configured by an earlier source
+				continue
+			}
 			setUnexportedField(sField, otherFieldValue)
 
 		}
